@@ -91,6 +91,7 @@ pub fn configs(tier: Tier) -> Vec<Box<dyn Config>> {
     let sse2 = super::width() == 16;
     let q = tier == Tier::Quick;
     let mut v = Vec::new();
+    v.push(Box::new(super::widebattery::WideBattery { tier, part: super::widebattery::Part::Table }) as Box<dyn Config>);
     if sse2 {
         v.push(tab(Plan::Zero, if q { 6 } else { 8 }, if q { 9 } else { 11 }, vec![], true, tier, ""));
         v.push(tab(Plan::Seq, if q { 3 } else { 4 }, if q { 4 } else { 6 }, vec![], true, tier, ""));
